@@ -4,6 +4,8 @@
 //! `<out>/<prop>.impl` (the implementation's canonical answers) and `<out>/<prop>.stats`.
 mod canon;
 mod corpus_c18;
+mod corpus_fm;
+mod fns;
 mod recv;
 mod probes;
 mod props;
@@ -37,6 +39,9 @@ impl Out {
     pub fn case_id(&mut self, prop: &str, id: &str, case: &sx::Sx, answer: &str) {
         writeln!(self.cases, "{} {} {}", prop, id, case.render()).unwrap();
         writeln!(self.answers, "{} {}", id, answer).unwrap();
+    }
+    pub fn raw(&mut self, line: &str) {
+        writeln!(self.cases, "{}", line).unwrap();
     }
     pub fn param(&mut self, key: &str, val: &str) {
         writeln!(self.cases, "param {} {}", key, val).unwrap();
@@ -120,6 +125,8 @@ fn main() {
         "c18recv" => props::c18::run_recv(seed, n, &mut out, if n >= 100000 { 4 } else { 3 }),
         "c19a" => props::c19::run_a(seed, n, &mut out),
         "c19b" => props::c19::run_b(seed, n, &mut out),
+        "c01" => props::recvfm::run(seed, n, &mut out, false),
+        "c02" => props::recvfm::run(seed, n, &mut out, true),
         "c13" => props::fm::run_c13(seed, n, &mut out),
         "c14" => props::fm::run_c14(seed, n, &mut out),
         "c15b" => props::fm::run_c15b(seed, n, &mut out),
